@@ -76,7 +76,7 @@ func c13Differential(c *hx.Ctx, r *hx.RNG) {
 		ex := exactOfFloat(f)
 		v = oracle.Val{Form: oracle.Finite, Neg: ex.Neg, Coef: ex.Coef, Exp: ex.Exp}
 	}
-	x := hx.Mk(v, digitsOf(v)+uint(r.Intn(3)), oracle.ToNearestEven)
+	x := hx.MkR(r, v, digitsOf(v)+uint(r.Intn(3)), oracle.ToNearestEven)
 	pre := hx.Snapshot(x)
 	exactShort := shortestIsExact(f)
 	if r.Bool() { // Text / Append against strconv.FormatFloat
@@ -221,7 +221,7 @@ func c13Model(c *hx.Ctx, r *hx.RNG) {
 	}
 	v = inRange(v)
 	xprec := digitsOf(v) + uint(r.Intn(3)*r.Intn(20))
-	x := hx.Mk(v, xprec, mode)
+	x := hx.MkR(r, v, xprec, mode)
 	what := fmt.Sprintf("Text('%c', %d) of %s mode=%s prec=%d", ft, prec, v.Full(), oracle.ModeNames[mode], xprec)
 	c.Note(what)
 	if c.Verbose {
